@@ -752,6 +752,9 @@ def run(ctx):
     global ACCESSORS
     ACCESSORS = TABLE_ACCESSORS
     r10(ctx)
+    if ctx.config in ("all", "barriers"):
+        from . import C20
+        C20.r4(ctx)   # thread-local registries are left as they were found: a dropped barrier is unregistered (a second run on the thread starts from the same state)
     r1(ctx)
     r2(ctx)
     r3(ctx)
